@@ -309,6 +309,7 @@ func (l *Layout) ApplyMuts(muts []Mut) []byte {
 	img := append([]byte(nil), l.Image...)
 	for _, m := range muts {
 		switch m.Kind {
+		case "none":
 		case "trunc":
 			if m.Off >= 0 && m.Off < int64(len(img)) {
 				img = img[:m.Off]
@@ -436,6 +437,7 @@ type ReadOpts struct {
 	MaxIdxCid  uint64 `json:"max_index_cid,omitempty"`
 	IndexCodec uint64 `json:"index_codec,omitempty"`
 	WholeCIDs  bool   `json:"whole_cids,omitempty"`
+	Trusted    bool   `json:"trusted,omitempty"`
 }
 
 // MediumSpec is the medium-engine part of a trace.
